@@ -95,7 +95,7 @@ func Exec(r Run, onJ func(j json.RawMessage)) (Stats, error) {
 	args = append(args, r.Module+".tla")
 	cmd := exec.Command("timeout", args...)
 	cmd.Dir = scratch
-	jopts := "-Xss256m"
+	jopts := "-Xss256m -Djava.io.tmpdir=" + scratch // (TLC leaves a tlc-NNN directory in the JVM temp dir: keep it inside the scratch directory, which is removed)
 	if r.JavaOpts != "" {
 		jopts += " " + r.JavaOpts
 	}
